@@ -89,11 +89,11 @@ Definition exp_suffix (ex : str) (e : Z) : Prop :=
 Lemma exp_suffix_parse ex e : exp_suffix ex e -> parse_exp ex = Some e /\ no_dig_head ex /\ (forall c t, ex = c :: t -> c <> 46).
 Proof.
   intros [[-> ->]|[ds [A [N [[-> ->]|[-> ->]]]]]].
-  - repeat split; [exact I | discriminate].
-  - repeat split; [|reflexivity|intros c t H; inversion H; lia].
+  - split; [reflexivity|split; [exact I|discriminate]].
+  - split; [|split; [reflexivity|intros c t H; inversion H; lia]].
     cbn [parse_exp take_sign]. change (69 =? 101) with false. change (69 =? 69) with true. cbn [orb].
     change (45 =? 45) with true. cbv iota. rewrite (span_dig_all ds A). destruct ds; [contradiction|reflexivity].
-  - repeat split; [|reflexivity|intros c t H; inversion H; lia].
+  - split; [|split; [reflexivity|intros c t H; inversion H; lia]].
     cbn [parse_exp take_sign]. change (69 =? 101) with false. change (69 =? 69) with true. cbn [orb].
     change (43 =? 45) with false. change (43 =? 43) with true. cbv iota. rewrite (span_dig_all ds A). destruct ds; [contradiction|reflexivity].
 Qed.
@@ -110,7 +110,7 @@ Proof.
   destruct ip as [|c t]; intros A N; [contradiction|]. simpl in A. apply andb_prop in A. exists c, t. tauto.
 Qed.
 
-Lemma take_sign_neg neg ip r : all_dig ip = true -> ip <> [] ->
+Lemma take_sign_neg (neg : bool) ip r : all_dig ip = true -> ip <> [] ->
   take_sign ((if neg then [45] else []) ++ ip ++ r) = (neg, ip ++ r).
 Proof.
   intros A N. destruct (is_dig_head ip A N) as [c [t [-> Hc]]]. destruct neg.
@@ -119,7 +119,7 @@ Proof.
 Qed.
 
 (* the general shape:  [-] ip [. fp] [E+-ds] *)
-Lemma parse_shape neg ip (dot : bool) fp ex e :
+Lemma parse_shape (neg : bool) ip (dot : bool) fp ex e :
   all_dig ip = true -> ip <> [] -> all_dig fp = true -> (dot = false -> fp = []) -> exp_suffix ex e ->
   parse_ascii ((if neg then [45] else []) ++ ip ++ (if dot then 46 :: fp else []) ++ ex)
   = Some (mkDec neg (Z.to_N (dval 0 (ip ++ fp))) (e - zl fp)).
@@ -134,7 +134,7 @@ Proof.
   - rewrite (Hd eq_refl). cbn [app]. rewrite app_nil_r.
     assert ((match ex with c :: t => if c =? 46 then span_dig t else ([], ex) | [] => ([], []) end) = ([], ex)) as S2.
     { destruct ex as [|c t]; [reflexivity|]. specialize (N46 c t eq_refl). destruct (c =? 46) eqn:E; [lia|reflexivity]. }
-    rewrite S2. destruct ip as [|c ip']; [contradiction|]. cbn [app]. rewrite Pe. unfold zl. simpl. reflexivity.
+    rewrite S2. destruct ip as [|c ip']; [contradiction|]. cbn [app]. rewrite ?app_nil_r. rewrite Pe. unfold zl. simpl. reflexivity.
 Qed.
 
 (* canonical strings are plain ASCII without white space or underscores: the first two stages are the identity *)
@@ -177,7 +177,7 @@ Proof.
   intros [[-> _]|[ds [A [_ [[-> _]|[-> _]]]]]]; [reflexivity| |]; simpl; apply all_dig_plain; exact A.
 Qed.
 
-Lemma parse_numeric_shape neg ip (dot : bool) fp ex e :
+Lemma parse_numeric_shape (neg : bool) ip (dot : bool) fp ex e :
   all_dig ip = true -> ip <> [] -> all_dig fp = true -> (dot = false -> fp = []) -> exp_suffix ex e ->
   parse_numeric ((if neg then [45] else []) ++ ip ++ (if dot then 46 :: fp else []) ++ ex)
   = Some (mkDec neg (Z.to_N (dval 0 (ip ++ fp))) (e - zl fp)).
@@ -222,12 +222,12 @@ Proof.
       * eexists. split; [reflexivity|].
         pose proof (parse_numeric_shape sg ds false [] [] 0) as P. cbn [app] in P. rewrite !app_nil_r in P.
         rewrite P; clear P; [|exact A|exact N|reflexivity|reflexivity|left; split; reflexivity].
-        rewrite CO. f_equal. unfold zl. simpl. lia.
+        rewrite CO. do 2 f_equal. unfold zl. cbn [length]. lia.
       * rewrite (EX eq_refl). destruct (fmt_signed_suffix ex) as [x [F S]]. rewrite F.
         eexists. split; [reflexivity|].
         pose proof (parse_numeric_shape sg ds false [] (69 :: x) ex) as P. cbn [app] in P. rewrite !app_nil_r in P.
         rewrite P; clear P; [|exact A|exact N|reflexivity|reflexivity|exact S].
-        rewrite CO. f_equal. unfold zl. simpl. lia.
+        rewrite CO. do 2 f_equal. unfold zl. cbn [length]. lia.
     + (* dd.ddd *)
       set (k := Z.to_nat dotplace).
       assert (0 < dotplace < n) as Hk by lia.
@@ -249,7 +249,7 @@ Proof.
       { rewrite CO. f_equal. unfold zl. rewrite L2. unfold k, n in *. lia. }
       rewrite R in P. clear R.
       destruct (ex + n =? dotplace) eqn:E3.
-      * inversion F; subst x. eexists. split; [reflexivity|]. rewrite <- P. f_equal. rewrite <- !app_assoc. reflexivity.
+      * inversion F; subst x. eexists. split; [reflexivity|]. rewrite <- P. f_equal. rewrite ?app_nil_r, <- ?app_assoc. reflexivity.
       * destruct (fmt_signed (ex + n - dotplace)) as [q|]; [|discriminate]. inversion F; subst x.
-        eexists. split; [reflexivity|]. rewrite <- P. f_equal. rewrite <- !app_assoc. reflexivity.
+        eexists. split; [reflexivity|]. rewrite <- P. f_equal. rewrite ?app_nil_r, <- ?app_assoc. reflexivity.
 Qed.
